@@ -230,8 +230,27 @@ func WalkExpr(v ssa.Value, f func(ssa.Value) bool) {
 		case *ssa.Alloc:
 			// a local cell passed by address (e.g. a value-typed atomic copied out of a map): its contents
 			for _, ref := range *x.Referrers() {
-				if st, ok := ref.(*ssa.Store); ok && st.Addr == ssa.Value(x) {
-					rec(st.Val, d+1)
+				switch r := ref.(type) {
+				case *ssa.Store:
+					if r.Addr == ssa.Value(x) {
+						rec(r.Val, d+1)
+					}
+				case *ssa.IndexAddr: // element of a local array (variadic argument lists)
+					if r.X == ssa.Value(x) && r.Referrers() != nil {
+						for _, r2 := range *r.Referrers() {
+							if st, ok := r2.(*ssa.Store); ok && st.Addr == ssa.Value(r) {
+								rec(st.Val, d+1)
+							}
+						}
+					}
+				case *ssa.FieldAddr: // field of a local struct literal
+					if r.X == ssa.Value(x) && r.Referrers() != nil {
+						for _, r2 := range *r.Referrers() {
+							if st, ok := r2.(*ssa.Store); ok && st.Addr == ssa.Value(r) {
+								rec(st.Val, d+1)
+							}
+						}
+					}
 				}
 			}
 		}
